@@ -224,6 +224,190 @@ def run_sessions(exe, sessions):
     return rows
 
 
+# ---- ranges the server reports (semantic tokens, diagnostics) address the tokens of the client's text ----
+RR_PIECES = ["i", "x1", "proc", "type", "if", "while", "var", "int", "array", "of", "ref", "main", "7", "0x1F", "'a'", "'ä'", "'😀'", ":=", ";", ":",
+             "(", ")", "{", "}", "[", "]", "<", "=", "+", "*", "ß", "é", "€", "😀", "ö", " ", "'ä", "'"]
+RR_SEPS = ["", "", "", " ", " ", "\t", "\n", "\r\n", "\r", "// cömment €\n", "// 😀", "\n\n"]
+
+
+def rr_text(rng):
+    """SPL lexemes glued to non-ASCII characters, on lines with every kind of line end; after an edit too"""
+    if rng.random() < 0.3:
+        body = "".join(rng.choice(["ä", "€", "😀", ""]) + p + rng.choice(["", " ", "ß", "😀"]) for p in
+                       ["proc ", "main", "(", ")", "{", "\n", "var ", "i", ":", "int", ";", "\r\n", "i", ":=", "7", ";", "}", "\n"])
+        return body
+    out = []
+    for _ in range(rng.randint(1, 14)):
+        out.append(rng.choice(RR_PIECES))
+        out.append(rng.choice(RR_SEPS))
+    t = "".join(out)
+    i = t.find("// 😀")
+    while i >= 0 and i + 4 < len(t) and rng.random() < 0.5:   # a comment runs to the end of the line: keep most of them short
+        t = t[:i + 4] + "\n" + t[i + 4:]
+        i = t.find("// 😀", i + 5)
+    return t
+
+
+def position_of(t, idx):
+    """LSP position of the character index idx of the client's text (inverse of offset_of; inside CR LF = end of the line)"""
+    line = 0
+    for content, term in split_lines(t):
+        if idx <= len(content):
+            return (line, sum(u16(ch) for ch in content[:idx]))
+        if idx < len(content) + len(term):
+            return (line, sum(u16(ch) for ch in content))
+        idx -= len(content) + len(term)
+        line += 1
+    last = split_lines(t)[-1][0]
+    return (line - 1, sum(u16(ch) for ch in last))
+
+
+def rr_expected(text, toks):
+    """(set of (line, col, utf16 length) of the lexer's tokens, set of positions of token boundaries)"""
+    b2c, k = {}, 0
+    for ci, ch in enumerate(text):
+        b2c[k] = ci
+        k += len(ch.encode("utf-8"))
+    b2c[k] = len(text)
+    spans, bounds = set(), set()
+    for t in toks:
+        if t["s"] not in b2c or t["e"] not in b2c:
+            continue
+        s, e = b2c[t["s"]], b2c[t["e"]]
+        spans.add(position_of(text, s) + (sum(u16(ch) for ch in text[s:e]),))
+        bounds.add(position_of(text, s))
+        bounds.add(position_of(text, e))
+    return spans, bounds
+
+
+def run_reported(exe, texts, tag):
+    """[(text, semantic tokens as absolute (line, col, len, type) | None, diagnostics ranges | None)]"""
+    s = lspclient.Server(exe)
+    out = []
+    try:
+        s.initialize(diagnostics=True)
+        for k, (t0, edit) in enumerate(texts):
+            uri = "file:///%s_%d.spl" % (tag, k)
+            s.open(uri, t0)
+            want = 1
+            text = t0
+            if edit is not None:
+                s.change(uri, [lsp_change(edit)], version=2)
+                text = client_apply(t0, edit)
+                want = 2
+            diags = None
+            try:
+                while want:
+                    m = s.read_msg(timeout=10.0)
+                    if m is None:
+                        break
+                    if m.get("method") == "textDocument/publishDiagnostics" and m["params"]["uri"] == uri:
+                        want -= 1
+                        diags = [((d["range"]["start"]["line"], d["range"]["start"]["character"]),
+                                  (d["range"]["end"]["line"], d["range"]["end"]["character"]), d["message"]) for d in m["params"]["diagnostics"]]
+                if want:
+                    diags = None
+            except queue.Empty:
+                diags = None
+            try:
+                r = s.request("textDocument/semanticTokens/full", {"textDocument": {"uri": uri}}, timeout=10.0)
+            except queue.Empty:
+                r = None
+            sem = None
+            if isinstance(r, dict) and isinstance(r.get("result"), dict):
+                data = r["result"]["data"]
+                sem, line, col = [], 0, 0
+                for j in range(0, len(data) - 4, 5):
+                    dl, dc, ln, ty = data[j], data[j + 1], data[j + 2], data[j + 3]
+                    line, col = (line + dl, dc) if dl else (line, col + dc)
+                    sem.append((line, col, ln, ty))
+            out.append((t0, edit, text, sem, diags))
+            s.close(uri)
+            if s.p.poll() is not None:
+                break
+    finally:
+        s.kill()
+    return out
+
+
+def reported_stage(ctx, exe, bindir):
+    n = 2400 if ctx.thorough() else 400
+    texts = []
+    for _ in range(n):
+        t = rr_text(ctx.rng)
+        texts.append((t, rand_change(ctx.rng, t) if ctx.rng.random() < 0.3 else None))
+    from concurrent.futures import ThreadPoolExecutor
+    parts = [texts[i::4] for i in range(4)]
+    rows = []
+    with ThreadPoolExecutor(4) as ex:
+        for r in ex.map(lambda kp: run_reported(exe, kp[1], "rr%d" % kp[0]), list(enumerate(parts))):
+            rows += r
+    lex = common.run_lines(os.path.join(bindir, "dump"), ["1 " + " ".join(str(ord(ch)) for ch in r[2]) for r in rows])
+    bad, nsem, ndiag, glued = [], 0, 0, 0
+    for (t0, edit, text, sem, diags), out in zip(rows, lex):
+        toks = decode(out)
+        if toks is None or sem is None or diags is None:
+            bad.append((len(text), t0, edit, text, "no answer (semantic tokens %r, diagnostics %r, lexer %r)" % (sem is not None, diags is not None, toks is not None)))
+            continue
+        spans, bounds = rr_expected(text, toks)
+        for (l, c_, ln, ty) in sem:
+            nsem += 1
+            if (l, c_, ln) not in spans:
+                a, b = offset_of(text, l, c_), offset_of(text, l, c_ + ln)
+                bad.append((len(text), t0, edit, text, "semantic token %d:%d length %d covers %r of the client's text, which is no token of it" % (l, c_, ln, text[a:b])))
+                break
+        else:
+            for (st, en, msg) in diags:
+                ndiag += 1
+                if st not in bounds or en not in bounds:
+                    bad.append((len(text), t0, edit, text, "diagnostic %r at %r..%r does not start and end on token boundaries of the client's text" % (msg, st, en)))
+                    break
+        for i in range(1, len(text)):
+            if ord(text[i - 1]) > 127 and text[i].isalnum() and ord(text[i]) < 128:
+                glued += 1
+                break
+    return rows, sorted(bad, key=lambda b: b[0]), dict(documents=len(rows), with_an_edit=sum(1 for r in rows if r[1]), semantic_tokens=nsem,
+                                                       diagnostics=ndiag, documents_with_ascii_token_glued_to_non_ascii=glued)
+
+
+def reported_stage_one(exe, bindir, t0, edit):
+    """re-runs one document twice in fresh servers; returns the complaint if it is reproduced both times, else None"""
+    whys = []
+    for k in range(2):
+        rows = run_reported(exe, [(t0, edit)], "rrc%d" % k)
+        if not rows:
+            return None
+        (_, _, text, sem, diags) = rows[0]
+        out = common.run_lines(os.path.join(bindir, "dump"), ["1 " + " ".join(str(ord(ch)) for ch in text)])[0]
+        toks = decode(out)
+        if toks is None or sem is None or diags is None:
+            whys.append("no answer (semantic tokens %r, diagnostics %r, lexer %r)" % (sem is not None, diags is not None, toks is not None))
+            continue
+        spans, bounds = rr_expected(text, toks)
+        why = None
+        for (l, c_, ln, ty) in sem:
+            if (l, c_, ln) not in spans:
+                a, b = offset_of(text, l, c_), offset_of(text, l, c_ + ln)
+                why = "semantic token %d:%d length %d covers %r of the client's text, which is no token of it" % (l, c_, ln, text[a:b])
+                break
+        if why is None:
+            for (st, en, msg) in diags:
+                if st not in bounds or en not in bounds:
+                    why = "diagnostic %r at %r..%r does not start and end on token boundaries of the client's text" % (msg, st, en)
+                    break
+        if why is None:
+            return None
+        whys.append(why)
+    return whys[0]
+
+
+def decode(line):
+    n = enc.nums(line)
+    if not n or n[0] != 0:
+        return None
+    return enc.read_tokens(enc.Reader(n[1:]))
+
+
 def run(ctx):
     proved = common.proof_stage(ctx)
     exe, log = common.build_server()
@@ -285,6 +469,24 @@ def run(ctx):
                            uri=q, client_text=e, server_text=o,
                            what="with several documents open, the server's text of this URI ($/verif/text; null = not open) differs from the client's"))
         confirmed.append(("session", si, oi))
+    # ranges reported by the server (semantic tokens, diagnostics) against the tokens of the client's text
+    bindir, hlog = common.build_harness()
+    rrcov = None
+    if bindir is None:
+        ctx.violation(dict(kind="build-failure", what="harness does not build", log=hlog[-2000:]), no_input=True)
+    else:
+        rrows, rbad, rrcov = reported_stage(ctx, exe, bindir)
+        nrep = 0
+        for _, t0, edit, text, why in rbad[:6]:
+            again = reported_stage_one(exe, bindir, t0, edit)
+            if again:
+                ctx.violation(dict(kind="reported-range", property="C08", text=t0, edit=edit, client_text=text, what=again))
+                confirmed.append(("reported", t0))
+                nrep += 1
+                if nrep >= 2:
+                    break
+        rrcov["deviations"] = len(rbad)
+        rrcov["confirmed"] = nrep
     # correspondence: the Coq model applied to the same (text before, changes) must give the observed text
     mism, kfail, nk = [], [], 0
     if judge:
@@ -328,10 +530,13 @@ def run(ctx):
                 "replacements; after every notification the server text ($/verif/text) is compared with an independent python client "
                 "model and with the Coq model; sessions with 2-4 documents open at once under URIs that differ in scheme / query / fragment / "
                 "case / host / one path segment only, interleaved open / change / close, the text of every URI compared after every "
-                "operation. non-trivial = distinct (text, changes) with >= 3 chars incl. a non-ASCII char or line end",
+                "operation; documents of SPL lexemes glued to non-ASCII characters (30% after one more edit): every semantic token the server "
+                "reports, cut out of the client's text under the LSP rules, is exactly one lexer token of that text, and every diagnostic "
+                "range starts and ends on token boundaries. non-trivial = distinct (text, changes) with >= 3 chars incl. a non-ASCII char or line end",
         "histories": len(hists), "corpus_histories": ncorpus,
         "multi_document_sessions": dict(sessions=len(sessions), texts_compared=len(srows), deviations=len(sfails), confirmed=len(sconfirmed),
                                         uri_pool=URI_POOL),
+        "reported_ranges": rrcov,
         "input_histogram": kinds,
         "traces_validated_against_impl": len(rows) if judge else 0,
         "kernel_judge_cases": nk,
@@ -368,6 +573,15 @@ def replay(ctx, path):
         for x in bad[:3]:
             print("after op %d: %s client %r server %r" % (x[1], x[2], x[3], x[4]))
         return 1 if bad else 0
+    if r.get("kind") == "reported-range":
+        exe, _ = common.build_server()
+        bindir, _ = common.build_harness()
+        edit = r["edit"]
+        if edit is not None:
+            edit = dict(range=(tuple(map(tuple, edit["range"])) if edit["range"] else None), text=edit["text"])
+        why = reported_stage_one(exe, bindir, r["text"], edit)
+        print(why or "every reported range addresses a token of the client's text")
+        return 1 if why else 0
     if "text_before" not in r:
         print(json.dumps(r, indent=1))
         return 1
